@@ -54,7 +54,7 @@ def read(text):
     return shx
 
 
-Z_VALUES = ['4', '2', '1', '8', '1.5', '4.5', '3', '6', '12', '2.5']
+Z_VALUES = ['4', '2', '1', '8', '1.5', '4.5', '3', '6', '12', '2.5', '0.5', '0.25']
 
 
 def build_file(rng, fvs, atoms, z=None):
